@@ -41,3 +41,21 @@ Section Compile.
 
   Definition compile (l : list defn) : option grammar := option_map (@List.concat rule) (mapM rules_of l).
 End Compile.
+
+(* a concrete numbering of names (never evaluated: it only shows that numberings exist) *)
+Fixpoint num_of (s : string) : nat :=
+  match s with
+  | EmptyString => 0
+  | String c r => S (Ascii.nat_of_ascii c + num_of r * 256)
+  end.
+
+Fixpoint unnum_fuel (fuel n : nat) : string :=
+  match fuel with
+  | O => EmptyString
+  | S f => match n with
+           | O => EmptyString
+           | S m => String (Ascii.ascii_of_nat (Nat.modulo m 256)) (unnum_fuel f (Nat.div m 256))
+           end
+  end.
+
+Definition unnum_of (n : nat) : string := unnum_fuel n n.
